@@ -139,6 +139,13 @@ func c09(p *Pkg, _ *Pkg, payload json.RawMessage, res *Result) {
 			router = r
 		}
 	}
+	// a body declared with a non-JSON media type is a reader on both sides; if the implementation
+	// types it (both sides must then agree), it is driven like a JSON body
+	if pl.Body == "raw" {
+		if bf, ok := op.ParamsT.FieldByName("Body"); ok && bf.Type.Kind() != reflect.Interface {
+			pl.Body = "json"
+		}
+	}
 	// enumerate the expressible parameter sets
 	groups := map[string][]string{"Query": c09QueryStrings, "Path": c09PathStrings, "Headers": c09HeaderStrings}
 	pt := op.ParamsT
